@@ -174,15 +174,16 @@ func runShapes(w *World, rs *RunSpec) {
 		p.Tunnel = t.Idx
 		p.Role = "shape"
 		p.UnaryViaStream = true
-		p.ReqSizes = []int{5, 6}
-		p.CallerSend = []Op{{Kind: OpSend, N: 0}, {Kind: OpSend, N: 1}, {Kind: OpCloseSend}}
+		// (an application that keeps trying: every send after the first is refused)
+		p.ReqSizes = []int{5, 6, 7, 8}
+		p.CallerSend = []Op{{Kind: OpSend, N: 0, Insist: true}, {Kind: OpSend, N: 1, Insist: true}, {Kind: OpSend, N: 2, Insist: true}, {Kind: OpSend, N: 3, Insist: true}, {Kind: OpCloseSend}}
 		p.CallerRecv = []Op{{Kind: OpRecvAll}}
 		// handler side: a non-server-streaming method whose handler sends twice
 		q := GenPlan(c, 1, GenOpts{MaxMsgs: 1, SmallOnly: true, NoMD: true, Shapes: []int{ShapeClientStream}})
 		q.Tunnel = t.Idx
 		q.Role = "shape"
-		q.RespSizes = []int{5, 6}
-		q.Handler = []Op{{Kind: OpRecvAll}, {Kind: OpSend, N: 0}, {Kind: OpSend, N: 1}, {Kind: OpReturn}}
+		q.RespSizes = []int{5, 6, 7, 8}
+		q.Handler = []Op{{Kind: OpRecvAll}, {Kind: OpSend, N: 0, Insist: true}, {Kind: OpSend, N: 1, Insist: true}, {Kind: OpSend, N: 2, Insist: true}, {Kind: OpSend, N: 3, Insist: true}, {Kind: OpReturn}}
 		q.HandlerSend = nil
 		sc.done = true
 		cs := w.StartCallers([]*RPCPlan{p, q})
@@ -275,8 +276,11 @@ func OracleC16(w *World, h *History) {
 				actor, dirToServer, what = "h", false, "response"
 			}
 			sends := r.OpsOf(OpSend, actor)
-			if len(sends) >= 2 && sends[1].OK() {
-				w.AddViolation("C16", "second-send-accepted", fmt.Sprintf("rpc %d: the application's second %s send on a non-streaming side returned nil", id, what), det, sends[1].Ret)
+			for i := 1; i < len(sends); i++ {
+				if sends[i].OK() {
+					w.AddViolation("C16", "second-send-accepted", fmt.Sprintf("rpc %d: the application's %s send number %d on a non-streaming side returned nil", id, what, i+1), det, sends[i].Ret)
+					break
+				}
 			}
 			envelopes := 0
 			for _, f := range h.Frames {
